@@ -51,8 +51,11 @@ class Translator:
         self.funcs_by_qual = collections.defaultdict(list)
         self.rules = collections.Counter()
         self.dropped = collections.Counter()
+        self.external_ids = set()
         for c in chunks:
             self.index(c, [], [], None)
+            if c.get('kind') == 'LinkageSpecDecl':
+                self.mark_external(c)
         for i, n in list(self.byid.items()):
             pid = n.get('parentDeclContextId')
             if pid and pid in self.qual and n.get('kind') in self.FUNC_KINDS + ('VarDecl',):
@@ -133,6 +136,11 @@ class Translator:
         for c in n.get('inner', []):
             if isinstance(c, dict):
                 self.index(c, sc, nf, n)
+
+    def mark_external(self, n):
+        if n.get('id'): self.external_ids.add(n['id'])
+        for c in n.get('inner', []):
+            if isinstance(c, dict): self.mark_external(c)
 
     def qname(self, i):
         return '::'.join(x for x in self.qual[i] if x)
@@ -407,6 +415,10 @@ class Translator:
             self.rules['pointer-to-member application -> field access'] += 1
             return '(%s%s%s)' % (self.e(a), '->' if op == '->*' else '.', fld)
         if op == ',': return '(%s, %s)' % (self.e(a), self.e(b))
+        if op in ('/', '%') and strip_casts(b, ('ImplicitCastExpr', 'ParenExpr', 'CStyleCastExpr', 'CXXStaticCastExpr', 'ConstantExpr')).get('kind') != 'IntegerLiteral' \
+           and 'value' not in b and self.ctype(n['type']) == 'u64':
+            self.rules['a / b, a % b with non-constant b -> VERIF_UDIV / VERIF_UMOD'] += 1
+            return '%s(%s, %s)' % ('VERIF_UDIV' if op == '/' else 'VERIF_UMOD', self.e(a), self.e(b))
         return '(%s %s %s)' % (self.e(a), op, self.e(b))
     def member_ptr_name(self, n):
         if n['kind'] == 'DeclRefExpr': return n['referencedDecl']['name']
@@ -556,7 +568,7 @@ class Translator:
             self.rules['std::function construction from a callable -> .set = 1'] += 1
             return '((verif_fn){1})'
         if ct.startswith('arr_'):
-            if not ins: return self.fresh_value(q, value_init=True)
+            if not ins: return self.fresh_value(q, value_init=bool(n.get('zeroing') or n.get('list')))
         rd = self.record_of_type(n['type'])
         if rd is None:
             raise Unsupported('construct ' + q)
@@ -748,7 +760,7 @@ class Translator:
         return '%s(%s)' % (self.use_func(d['id']), ', '.join(self.call_args(args, self.byid[self.defn.get(d['id'], d['id'])])))
 
     def in_repo(self, d):
-        return d.get('id') in self.qual and not (self.qual[d['id']] and self.qual[d['id']][0] in astload.SKIP_NS)
+        return d.get('id') in self.qual and d.get('id') not in self.external_ids and not (self.qual[d['id']] and self.qual[d['id']][0] in astload.SKIP_NS)
 
     def e_CXXMemberCallExpr(self, n):
         ins = inner(n)
